@@ -48,6 +48,44 @@ def mk_linkage(q, reference):
     return body
 
 
+def mk_linkage_conformation(reference):
+    def body(ctx):
+        """conformation level: d/dpH of the summed folding energy == 1.36 x (sum folded - sum unfolded charge), where
+        both sums are what calculate_folding_energy / calculate_charge of the conformation return: a group that does not
+        enter the charge curves (bridged cysteine, unlisted residue, backbone) must not enter the folding energy either"""
+        from symx.dual import Dual
+        p = H.params()
+        mol = H.molecule(p)
+        conf = H.conformation('AVR', p=p, mol=mol)
+        asp = mk_group('COOGroup', 'ASP', 10, 'CG', q=-1, p=p)
+        asp.pka_value, asp.model_pka = ctx.real('asp_pka', 0, 10), 3.8
+        kind = ctx.choice('second_group', ['bridged-CYS', 'unlisted-CYS', 'free-CYS', 'backbone'])
+        if kind == 'backbone':
+            g2 = mk_group('BBNGroup', 'ALA', 20, 'N', q=0, p=p)
+            g2.titratable = False
+        else:
+            g2 = mk_group('CYSGroup', 'CYS', 20, 'SG', q=-1, p=p)
+            g2.model_pka = 9.0
+            g2.pka_value = 99.99 if kind == 'bridged-CYS' else ctx.real('cys_pka', 5, 14)
+            g2.titratable = (kind == 'free-CYS')
+            g2.atom.cysteine_bridge = (kind == 'bridged-CYS')
+            g2.exclude_cys_from_results = (kind == 'unlisted-CYS')
+        conf.groups.extend([asp, g2])
+        ph = ctx.real('ph', 0, 14)
+        if ctx.native:
+            h = 1e-6
+            d = (conf.calculate_folding_energy(ph=ph + h, reference=reference) - conf.calculate_folding_energy(ph=ph - h, reference=reference)) / (2 * h)
+            u, f = conf.calculate_charge(p, ph=ph)
+            ctx.claim('proton-linkage(conformation)', abs(d - 1.36 * (f - u)) < 1e-4, detail='second group %s: d(dG)/dpH=%r, 1.36*(Qf-Qu)=%r' % (kind, d, 1.36 * (f - u)))
+            return
+        ctx.notes['e10_reciprocal'] = True
+        e = conf.calculate_folding_energy(ph=Dual(ph, 1.0), reference=reference)
+        d = e.d if isinstance(e, Dual) else 0.0
+        u, f = conf.calculate_charge(p, ph=ph)
+        ctx.claim('proton-linkage(conformation)', eq(d, 1.36 * (f - u)), detail='second group %s' % kind)
+    return body
+
+
 def o_sum(ctx):
     """ConformationContainer.calculate_folding_energy sums the groups'
     contributions (per-group energies are free symbolic values here)"""
@@ -194,6 +232,12 @@ def obligations(tier):
                                   shims=['pH enters as a dual number (value, derivative 1): forward-mode differentiation through the real code'],
                                   claim_doc='d(dG)/d(pH) == 1.36*(Q_folded - Q_unfolded) with Q from calculate_charge on the same group',
                                   query_timeout_ms=60000, wall_s=200))
+    for ref in ('neutral', 'low-pH'):
+        obs.append(Obligation('O1-proton-linkage-conformation[%s]' % ref, mk_linkage_conformation(ref),
+                              code=['propka/conformation_container.py:ConformationContainer.calculate_folding_energy', 'propka/conformation_container.py:ConformationContainer.calculate_charge',
+                                    G + 'calculate_folding_energy', G + 'calculate_charge'],
+                              bounds='a conformation with ASP (symbolic pKa) and a second group that is a bridged / unlisted / free cysteine or a backbone group; pH in [0,14]',
+                              shims=['pH as a dual number'], claim_doc='d/dpH of the summed folding energy == 1.36 x (summed folded - unfolded charge)', query_timeout_ms=60000, wall_s=200))
     obs.append(Obligation('O1-sum-over-groups', o_sum, code=['propka/conformation_container.py:ConformationContainer.calculate_folding_energy'],
                           bounds='3 groups with free symbolic energies', claim_doc='sum over groups'))
     obs.append(Obligation('O2-profile-optimum-ranges', o_profile, code=['propka/molecular_container.py:MolecularContainer.get_folding_profile', 'propka/lib.py:make_grid'],
